@@ -43,7 +43,7 @@ theorem xq_qual (box : Bool) (b : Bnd) (pred : Expr) (p : String) (hb : b.wf = t
     simp only [pathName, Bool.false_eq_true, if_false] at hh
     simp (disch := decide) [printX, hpr, hdia, hgeq, parseX, isTok_qs2, List.append_assoc, hh]
 
-theorem bndToks_noruns (b : Bnd) (h : b.runs.isNone = true) : kindToks P b.kind ++ P b.bound = bndToks P b := by
+theorem bndToks_noruns (b : Bnd) (h : b.runs.isNone = true) : boundToks P b = bndToks P b := by
   obtain ⟨k, bound, runs⟩ := b
   cases runs with
   | none => simp [bndToks, runsToks]
@@ -63,7 +63,7 @@ theorem xq_cmp (b1 : Bnd) (box1 : Bool) (p1 : Expr) (b2 : Bnd) (box2 : Bool) (p2
     (.sym (qid "T_GEQ") :: .sym (qid "T_PROBA") :: .lb :: (bndToks P b2 ++ .rb :: .lp :: .sym (qid (pathName box2)) :: (P p2 ++ [.rp])))
   rw [← bndToks_noruns b1 hr1, ← bndToks_noruns b2 hr2] at hh1
   rw [← bndToks_noruns b2 hr2] at hh2
-  simp only [P, List.append_assoc] at hh1 hh2
+  simp only [P] at hh1 hh2
   unfold xprint
   simp (disch := decide) only [printX, hpr, hco, hpt, hgeq, hcl, parseX, isTok_qs2, List.append_assoc, List.cons_append, List.nil_append,
     beq_self_eq_true, if_true]
